@@ -39,7 +39,7 @@ RULE = ("exhaustive product: all subsets of the cache-file universe {d.svg, d.pn
         "{subdir absent | present}, FileHandler instance (memory, local), same as the model path, falsy None/''/{}; every other "
         "plausible directory - model directory, parent directory - holds labelled decoys of all candidate names, and the handler's "
         "resolved root is compared with the configured location) x diagram roles swapped x an adversarial-uuid model (uuids '_D' and "
-        "'_D.svg', or colliding ones derived from the live extension table if it is not suffix-free); plus real-converter runs on corpus diagrams with seeded random cache subsets. "
+        "'_D.svg', or colliding ones derived from the live extension table if it is not suffix-free) x path-like uuids ('_D' next to 'x/../_D', './_D', thorough: '/_D', '_D/../_D', '//_D', 'a/b/../../_D') whose names a file handler normalises onto the other diagram's file; plus real-converter runs on corpus diagrams with seeded random cache subsets. "
         "distinct = distinct (mode, way, model, diagram, files, fmt, via, pretty, fallback, fresh_ok); non-trivial = a "
         "cache is configured and the format is registered (the lookup runs)")
 ASSUMPTIONS = [
@@ -47,8 +47,9 @@ ASSUMPTIONS = [
     "cairosvg is absent on this image, so PNGFormat.convert is replaced by a deterministic stub in the harness",
     "the cache handler's open(name) returns the file stored under exactly that name or raises FileNotFoundError (property C14 "
     "covers handler path handling); other OSErrors (directory of that name, permissions) propagate and are not modelled",
-    "diagram uuids are opaque strings; the file-name theorem holds for all strings, the handlers' own name normalisation "
-    "(uuids containing '/' or '..') is not exercised",
+    "diagram uuids are arbitrary strings; the handlers' own name normalisation is composed with the lookup (C14 path model): "
+    "names that are not one clean path component are never looked up (modelled: plainName; exercised: uuids 'x/../_D', './_D', "
+    "'/_D', ... next to '_D' on local, memory and zip handlers); case-insensitive or Unicode-normalising file systems are not modelled",
     "the installed entry-point metadata does not change during a run (importlib.metadata.entry_points is memoised by the harness: "
     "the real code re-reads all distributions' metadata on every render, ~10 ms)",
     "pretty_print is not part of the property's quantifier: on a cache hit the code ignores it (modelled as coded; counted in "
@@ -60,14 +61,15 @@ MANIFEST = dict(
           "diagram_cache dispatch, generic in the converter table, the converters' functions, the cache contents and the uuid: a "
           "hit returns from_cache of the nearest cached ancestor's file converted forward and equals convert_format of that file; "
           "only names uuid+ext are opened and uuid+ext is injective for suffix-free extensions, so files of other diagrams and junk "
-          "never influence the result; a miss is an error unless fallback is enabled, in which case the value equals the uncached "
+          "never influence the result; composed with the handlers' path normalisation (C14 model): every opened name is one clean path "
+          "component which every handler resolves to itself, distinct uuids get distinct handler paths or the lookup refuses; a miss is an error unless fallback is enabled, in which case the value equals the uncached "
           "one. The live entry-point table is generated into Lean and its well-formedness (chains end, dispatch tests agree, "
           "extensions suffix-free, cache-loadable converters registered, unique ids) is checked by the kernel. Tie: exhaustive "
           "differential run (all cache-file subsets x formats x flags x ways of specifying the cache) comparing traces and "
           "results of the real code with the model, plus an independent brute-force monitor."),
     design_ref="§6 C19",
     note=("Trusted: Lean kernel; the instrumentation stubs; cairosvg is absent so PNG conversion is stubbed; converters that raise, "
-          "OSErrors other than FileNotFoundError, handler-side name normalisation and _repr_mimebundle_ are not modelled."),
+          "OSErrors other than FileNotFoundError and _repr_mimebundle_ are not modelled."),
     technique="Lean 4 proof (induction over converter chains, generated table checked by decide +kernel) + exhaustive trace-level differential correspondence",
 )
 
@@ -480,6 +482,14 @@ def judge(out: Outcome, D, table, world: World, d, other_uuids: list[str], case:
         for ou in other_uuids:
             if any(n == ou + e for e in exts):
                 fail("opens-other-diagram", f"opened {n!r}, a cache file of diagram {ou}")
+    if case["mode"] == "tag" and "ok" in obs["result"]:
+        t = obs["result"]["ok"]
+        while isinstance(t, list) and t and t[0] in ("convert", "call", "convert_pretty", "from_cache"):
+            t = t[-1]
+        if isinstance(t, list) and t and t[0] == "file" and not (str(t[1]).startswith(uuid) and str(t[1])[len(uuid):] in exts):
+            owner = [ou for ou in other_uuids if any(t[1] == ou + e for e in exts)]
+            fail("reads-other-diagram" if owner else "reads-foreign-file",
+                 f"the result of diagram {uuid!r} was made from the bytes of {t[1]!r}" + (f", the cache file of diagram {owner[0]!r}" if owner else ""))
     if not configured:
         return
     nearest = None
@@ -593,7 +603,15 @@ def universe(uuid: str, others: list[str], thorough: bool) -> list[str]:
     u.append("junk.bin")
     if thorough:
         u += [uuid + ".svg.bak", uuid + ".PNG"]
-    return u
+    # a uuid that is not a plain file name ('x/../_D') has no file of its own in a flat cache directory
+    return [n for n in u if "/" not in n]
+
+
+def pathlike_uuids(thorough: bool) -> list[dict]:
+    """uuids for the two Library Test diagrams of which the second is a PATH that a file handler normalises onto the
+    first one's name ('x/../_D.svg', './_D.svg', '/_D.svg' all resolve to '_D.svg')."""
+    vs = ["x/../_D", "./_D"] + (["/_D", "_D/../_D", "//_D", "a/b/../../_D"] if thorough else [])
+    return [{LIB_UIDS[0]: "_D", LIB_UIDS[1]: v} for v in vs]
 
 
 def run(ctx: Ctx) -> Outcome:
@@ -671,6 +689,9 @@ def run(ctx: Ctx) -> Outcome:
                                                  if (nontriv and len(out.samples) < 6 and ctx.rng.random() < 0.002) else None, nontriv)
                                         out.traces_validated += 1
                                         count(f"way:{way}"); count(f"fmt:{fmt}"); count(f"mode:{mode}")
+                                        if "/" in d.uuid:
+                                            count("uuid:pathlike")
+                                            out.hit("probe:nonplain-name-skipped" if not any(e[0] == "open" for e in obs["trace"]) else "probe:nonplain-name-OPENED")
                                         hit = any(e[0] == "from_cache" for e in obs["trace"])
                                         count("outcome:" + ("hit" if hit else ("raise:" + obs["result"]["raise"] if "raise" in obs["result"] else ("fresh" if ["fresh"] in obs["trace"] else "error-image"))))
                                         req = model_request(case, d.uuid)
@@ -715,6 +736,12 @@ def run(ctx: Ctx) -> Outcome:
     # (B) adversarial uuids ('_D' / '_D.svg'): the file names of one diagram extend the other's
     run_mode("tag", [(lib, "adv", adversarial)], ["path-str", "handler-memory", "same-as-model", "dict-modelpath-subdir"] if not ctx.thorough else CACHED_WAYS,
              all_subsets, all_fmts, (False,), (True,), ("render",), lambda n: range(min(n, 2)))
+
+    # (B') path-like uuids: the handler normalises '<uuid><ext>' of one diagram onto the cache file of the other
+    for k, rw in enumerate(pathlike_uuids(ctx.thorough)):
+        run_mode("tag", [(lib, f"pathlike{k}", rw)], ["path-str", "handler-memory", "url-zip"] if not ctx.thorough else CACHED_WAYS,
+                 all_subsets, ["svg", "png", "svg_confluence", "datauri_svg", "html_img", None, "bogus"], (False,), (True,), ("render", "as"),
+                 lambda n: range(min(n, 2)))
 
     # (C) real converters: Library Test exhaustively over the file subsets for two ways; corpus diagrams with random subsets
     def few_subsets(uuid, others, way):
@@ -795,6 +822,8 @@ def replay(ctx: Ctx, case: dict) -> str | None:
     data = common.REPO / "tests" / "data"
     srcs = {"lib": (data / "Library Test", None),
             "adv": (data / "Library Test", adversarial_uuids(__import__("gen_formats").collect()))}
+    for k, rw in enumerate(pathlike_uuids(True)):
+        srcs[f"pathlike{k}"] = (data / "Library Test", rw)
     src, rewrite = srcs.get(case["model"], (data / "melodymodel" / case["model"], None))
     out = Outcome()
     P = install(case["mode"])
